@@ -347,6 +347,81 @@ theorem C12_gen_genbank_columns :
     0 < Gen.C12.symbolsPerChunk ∧ 0 < Gen.C12.chunksPerLine := by
   decide
 
+/-! ## Pass 7: more of the model's literals regenerated from the source (`ast`) and compared -/
+
+/-- FASTA / FASTQ line-start characters of the current source are the ones the model tests, in the
+order it tests them, and the model reacts to exactly these characters. -/
+theorem C12_gen_line_start_chars :
+    Gen.C12.fastaHeaderChar = '>' ∧ Gen.C12.fastaCommentChar = ';' ∧ Gen.C12.fastaHeaderPrefix = '>' ∧
+    Gen.C12.fastqLineStartChars = ['@', '+'] ∧ Gen.C12.fastqIdPrefix = '@' ∧
+    isHdr [Gen.C12.fastaHeaderChar, 'x'] = true ∧
+    (fastaNewLines 3 "h".toList "AC".toList).head? = some (Gen.C12.fastaHeaderPrefix :: "h".toList) ∧
+    (fastaRead [[Gen.C12.fastaCommentChar, 'c'], [Gen.C12.fastaHeaderChar, 'a'], "AC".toList] 80).map (·.lines) =
+      .ok [[Gen.C12.fastaHeaderChar, 'a'], "AC".toList] ∧
+    (fastqNewLines none "r".toList "A".toList "!".toList) =
+      [Gen.C12.fastqIdPrefix :: "r".toList, "A".toList, [Gen.C12.fastqLineStartChars.getD 1 ' '], "!".toList] := by decide
+
+/-- the score range guard of `_scores_to_score_str` (`(x < lo) | (x > hi)`) is the guard of
+`encodeScores`: accepted at the bounds, refused one beyond them. -/
+theorem C12_gen_score_range :
+    Gen.C12.scoreLo = 33 ∧ Gen.C12.scoreHi = 126 ∧
+    (encodeScores 0 [Gen.C12.scoreLo, Gen.C12.scoreHi]).toBool = true ∧
+    encodeScores 0 [Gen.C12.scoreLo - 1] = .error .valueError ∧ encodeScores 0 [Gen.C12.scoreHi + 1] = .error .valueError ∧
+    Gen.C12.scoreDtypes = ["int64", "int8", "|", "int", "int8"] := by decide
+
+/-- GenBank: the qualifier regex, the ORIGIN regex and number format, the location keywords and the
+order in which `_parse_single_loc` tests the separators, the literals `_convert_to_loc_string`
+prints, the name-column width / limits / header padding / terminator of `GenBankFile`. -/
+theorem C12_gen_genbank_literals :
+    Gen.C12.qualifierRegex = "(\".*?\"|/.*?=)" ∧ Gen.C12.originRegex = "-?[0-9]+| " ∧
+    Gen.C12.originNumberFormat = "{:>9d}" ∧
+    Gen.C12.locKeywords = ["join", "order", "complement"] ∧ Gen.C12.locSeparators = ["..", ".", "^"] ∧
+    Gen.C12.locPrintLiterals = ["join(", ")", "<", ">", "complement(", ")", ",", ".", "^", ".."] ∧
+    Gen.C12.gbLimits = [12, 10] ∧ Gen.C12.gbNameColumn = 12 ∧ Gen.C12.gbHeaderPad = 13 ∧ Gen.C12.gbSliceWidths = [0, 2, 12] ∧
+    Gen.C12.gbTerminator = "//" ∧ Gen.C12.gbTerminator.toList = gbTerminator ∧
+    (fmt9 5).length = 9 ∧
+    gbToLines (List.replicate Gen.C12.gbNameColumn 'A') ["x".toList] [] = .ok [List.replicate Gen.C12.gbNameColumn 'A' ++ "x".toList] ∧
+    gbToLines (List.replicate (Gen.C12.gbNameColumn + 1) 'A') ["x".toList] [] = .error .valueError := by
+  refine ⟨rfl, rfl, rfl, rfl, rfl, rfl, rfl, rfl, rfl, rfl, rfl, by decide, by decide, by decide, by decide⟩
+
+/-- GFF3: column count, separators and placeholders of `__getitem__` / `_create_line` /
+`_index_entries`, the escape written by `_quote_value`, the directive of an empty file, the `ID` key. -/
+theorem C12_gen_gff_literals :
+    Gen.C12.gffColumns = 9 ∧ Gen.C12.gffGetitemLiterals = ["\t", "+", ".", "-", "."] ∧
+    Gen.C12.gffCreateLineLiterals = [".", ".", ">", "#", ".", "+", ".", ".", "-", ".", "\t", ";", "="] ∧
+    Gen.C12.gffIndexLiterals = [" ", "#", "##", "FASTA"] ∧ Gen.C12.gffValueEscape = [" ", "%20"] ∧
+    Gen.C12.gffInitDirective = ["gff-version", "3"] ∧ Gen.C12.gffIdKey = "ID" ∧
+    Gff.empty.lines = ["##gff-version 3".toList] ∧
+    quoteV Gen.C12.notQuoted "x ".toList = "x%20".toList := by
+  refine ⟨rfl, rfl, rfl, rfl, rfl, rfl, rfl, by decide, by decide⟩
+
+/-- `Location.Defect` members in definition order: `auto()` numbers them 1, 2, 4, … in the order the
+driver and the adapter decode the defect bits. -/
+theorem C12_gen_defect_flags : Gen.C12.defectMembers = ["NONE=0", "MISS_LEFT=auto()", "MISS_RIGHT=auto()", "BEYOND_LEFT=auto()", "BEYOND_RIGHT=auto()", "UNK_LOC=auto()", "BETWEEN=auto()"] := rfl
+
+/-- default values of the optional parameters of every public entry point, as the adapter, the
+oracle and the model assume them (`chars_per_line` 80 / None, `as_rna` False, `is_stranded` True,
+`sequence_start` 1, `format` 'gb', …). -/
+theorem C12_gen_defaults : Gen.C12.defaults = ["fasta_file:FastaFile.__init__(chars_per_line=80)", "fasta_file:FastaFile.read(chars_per_line=80)", "fasta_file:FastaFile.write_iter(chars_per_line=80)", "fasta_convert:get_sequence(header=None)", "fasta_convert:get_sequence(seq_type=None)", "fasta_convert:get_sequences(seq_type=None)", "fasta_convert:set_sequence(header=None)", "fasta_convert:set_sequence(as_rna=False)", "fasta_convert:set_sequences(as_rna=False)", "fasta_convert:get_alignment(additional_gap_chars=('_',))", "fasta_convert:get_alignment(seq_type=None)", "fastq_file:FastqFile.__init__(chars_per_line=None)", "fastq_file:FastqFile.read(chars_per_line=None)", "fastq_file:FastqFile.write_iter(chars_per_line=None)", "fastq_convert:get_sequence(header=None)", "fastq_convert:set_sequence(header=None)", "fastq_convert:set_sequence(as_rna=False)", "fastq_convert:set_sequences(as_rna=False)", "gb_annotation:get_annotation(include_only=None)", "gb_sequence:get_sequence(format='gb')", "gb_sequence:get_annotated_sequence(format='gb')", "gb_sequence:get_annotated_sequence(include_only=None)", "gb_sequence:set_sequence(sequence_start=1)", "gb_file:GenBankFile.set_field(subfield_dict=None)", "gb_file:GenBankFile.insert(subfields=None)", "gb_file:GenBankFile.append(subfields=None)", "gb_metadata:set_locus(mol_type=None)", "gb_metadata:set_locus(is_circular=False)", "gb_metadata:set_locus(division=None)", "gb_metadata:set_locus(date=None)", "gff_file:GFFFile.insert(attributes=None)", "gff_file:GFFFile.append(attributes=None)", "gff_convert:set_annotation(seqid=None)", "gff_convert:set_annotation(source=None)", "gff_convert:set_annotation(is_stranded=True)"] := rfl
+
+/-- structure of every anchored function (constants, comparison / arithmetic operators, control
+flow, called helpers, raised exception classes, order of all of these) as the model was written
+and validated against; independent of names of locals, comments, docstrings and error texts. -/
+theorem C12_gen_structure :
+    Gen.C12.fp_file = [("wrap_string", 69890739125027901), ("TextFile.read", 52744913334102880), ("TextFile.write", 65428673498045656), ("TextFile.write_iter", 49048918827519762), ("TextFile.__copy_fill__", 46384877220279077)] ∧
+    Gen.C12.fp_fasta_file = [("FastaFile.__init__", 30461155376552866), ("FastaFile.read", 47887338503742412), ("FastaFile.__setitem__", 23530998009151652), ("FastaFile.__getitem__", 19532313079441915), ("FastaFile.__delitem__", 6081584896559661), ("FastaFile._find_entries", 17458413150503724), ("FastaFile.read_iter", 50777665046551501), ("FastaFile.write_iter", 42873014587416648), ("FastaFile.__copy_create__", 46021651820154360), ("FastaFile.__copy_fill__", 9171973143232395)] ∧
+    Gen.C12.fp_fasta_convert = [("get_sequence", 15287655319111866), ("get_sequences", 57999039830059298), ("set_sequence", 32380205897755243), ("set_sequences", 5555976864286430), ("get_alignment", 113382230519987), ("set_alignment", 10070988115556558), ("_convert_to_sequence", 57287671799981267), ("_process_protein_sequence", 39394005679521937), ("_process_nucleotide_sequence", 40475234732229730), ("_convert_to_string", 11122864226821563)] ∧
+    Gen.C12.fp_fastq_file = [("FastqFile.__init__", 19229642344774758), ("FastqFile.read", 39508588105055951), ("FastqFile.get_seq_string", 16882616809862923), ("FastqFile.get_quality", 67771401713914630), ("FastqFile.__setitem__", 19940498723314234), ("FastqFile.__delitem__", 53349856754451135), ("FastqFile._find_entries", 16296965976350633), ("FastqFile.read_iter", 33350172544443973), ("FastqFile.write_iter", 5067327642367789), ("FastqFile.__copy_create__", 9118837679290944), ("FastqFile.__copy_fill__", 9171973143232395), ("_score_str_to_scores", 60012903023225593), ("_scores_to_score_str", 5646939377473502), ("_convert_offset", 32628608588527297)] ∧
+    Gen.C12.fp_fastq_convert = [("get_sequence", 28690363095249879), ("get_sequences", 13873533640459407), ("set_sequence", 19698727973848682), ("set_sequences", 11286612025829448), ("_convert_to_string", 17527852702845737)] ∧
+    Gen.C12.fp_gb_annotation = [("get_annotation", 53573287114250622), ("_parse_locs", 20115018573223396), ("_parse_single_loc", 71297042808775064), ("_set_qual", 62782454980306544), ("set_annotation", 18306168713310788), ("_check_expressible", 72012322406688221), ("_convert_to_loc_string", 66806287259349735)] ∧
+    Gen.C12.fp_gb_sequence = [("get_raw_sequence", 37958553599543271), ("get_sequence", 4722461076783407), ("get_annotated_sequence", 52587871643017521), ("_field_to_seq_string", 65108357747712597), ("_convert_seq_str", 57657467318102930), ("_get_seq_start", 11031722265961550), ("set_sequence", 1672769367472674), ("set_annotated_sequence", 6409933781959357)] ∧
+    Gen.C12.fp_gb_file = [("GenBankFile.__init__", 11665440253724393), ("GenBankFile.read", 2934641520706990), ("GenBankFile.get_fields", 48669973262689337), ("GenBankFile.get_indices", 19532101903397429), ("GenBankFile.set_field", 30582555320812524), ("GenBankFile.__getitem__", 59975776272893496), ("GenBankFile.__setitem__", 37337107580546342), ("GenBankFile.__delitem__", 16248488690030889), ("GenBankFile.insert", 32140045207491665), ("GenBankFile.append", 59546421498343193), ("GenBankFile._find_field_indices", 48695000654898240), ("GenBankFile._get_field_content", 61364105387331218), ("GenBankFile._to_lines", 48314310028750319), ("GenBankFile._translate_idx", 2198075552783753), ("GenBankFile.__copy_fill__", 54297879162397414), ("MultiFile.__iter__", 53655559911871226)] ∧
+    Gen.C12.fp_gb_metadata = [("get_locus", 43519328635554047), ("get_definition", 62897848291452213), ("get_accession", 14501740991108003), ("get_version", 13533649391716117), ("get_gi", 23588025199573240), ("get_db_link", 54262593733871766), ("get_source", 67833820986744488), ("_expect_single_field", 33534489776807203), ("set_locus", 67828978046379804)] ∧
+    Gen.C12.fp_gff_file = [("GFFFile.__init__", 16944149669906381), ("GFFFile.read", 46326894234801180), ("GFFFile.insert", 8654221079199807), ("GFFFile.append", 65589965750273761), ("GFFFile.append_directive", 38740713414137907), ("GFFFile.directives", 71954008321877358), ("GFFFile.__setitem__", 57142853945817531), ("GFFFile.__getitem__", 7487384416613262), ("GFFFile.__delitem__", 63728262953930964), ("GFFFile._index_entries", 19022643947004329), ("GFFFile._create_line", 63484911906708308), ("GFFFile._parse_attributes", 60875494187337771), ("GFFFile.__copy_fill__", 48764790520467154), ("_quote_value", 11741285970257027)] ∧
+    Gen.C12.fp_gff_convert = [("get_annotation", 18357258658910372), ("set_annotation", 47699526810652815)] ∧
+    Gen.C12.fp_general = [("load_sequence", 69889418895756670), ("save_sequence", 44834011396314712), ("load_sequences", 44053345227656861), ("save_sequences", 65697982613760724)] := by
+  refine ⟨rfl, rfl, rfl, rfl, rfl, rfl, rfl, rfl, rfl, rfl, rfl, rfl⟩
+
 /-! ## Non-vacuity -/
 
 example : HeaderOk "a >b;c".toList ∧ SeqOk "ACG*-N".toList := by
